@@ -170,14 +170,24 @@ impl Scen1 {
         let r = catch_unwind(AssertUnwindSafe(|| {
             let data: Array<E, D> = make_data::<E>(&self.rows, &self.trail).into_dimensionality::<D>().unwrap();
             let qs: Vec<E> = self.queries.iter().map(|&q| E::of_f64(q)).collect();
+            let tshape = data.raw_dim().remove_axis(ndarray::Axis(0));
             macro_rules! go {
                 ($builder:expr) => {{
                     match $builder.build() {
                         Err(e) => (BuildOut::Err(bkind(&e)), vec![]),
                         Ok(interp) => {
                             let mut outs = vec![];
-                            for &q in &qs {
-                                let o = catch_unwind(AssertUnwindSafe(|| interp.interp(q)));
+                            for (qi, &q) in qs.iter().enumerate() {
+                                // every third query goes through interp_into with a target that is NOT zeroed:
+                                // the strategies must overwrite, not accumulate
+                                let o = catch_unwind(AssertUnwindSafe(|| {
+                                    if qi % 3 == 2 {
+                                        let mut buf = Array::<E, D::Smaller>::from_elem(tshape.clone(), E::of_f64(7.5));
+                                        interp.interp_into(q, buf.view_mut()).map(|_| buf)
+                                    } else {
+                                        interp.interp(q)
+                                    }
+                                }));
                                 outs.push(match o {
                                     Ok(Ok(arr)) => Out::Ok(arr.iter().map(|v| v.to_val()).collect()),
                                     Ok(Err(InterpolateError::OutOfBounds(_))) => Out::Oob,
@@ -227,7 +237,83 @@ impl Scen1 {
     }
 
     pub fn run<E: Elem>(&self) -> (BuildOut, Vec<Out>) {
-        self.run_dim::<E, IxDyn>()
+        let mut r = self.run_dim::<E, IxDyn>();
+        if r.0 == BuildOut::Built && !r.1.is_empty() {
+            if let Some(msg) = self.batch_mismatch::<E>(&r.1) {
+                r.1[0] = Out::Panic(msg);
+            }
+        }
+        r
+    }
+
+    /// The same queries once more as ONE batch through interp_array -- as a static rank-1 array (fast
+    /// path), a dynamic rank-1 array and a rank-2 array (general path): the batch must be Ok with exactly
+    /// the per-query values when every query is answered, and OutOfBounds as a whole when one is refused.
+    /// Returns a description of the first disagreement.
+    fn batch_mismatch<E: Elem>(&self, outs: &[Out]) -> Option<String> {
+        if outs.iter().any(|o| matches!(o, Out::Panic(_))) {
+            return None;
+        }
+        let any_oob = outs.iter().any(|o| matches!(o, Out::Oob));
+        let mut flat: Vec<Val> = vec![];
+        for o in outs { if let Out::Ok(v) = o { flat.extend(v.iter().cloned()); } }
+        let qs: Vec<E> = self.queries.iter().map(|&q| E::of_f64(q)).collect();
+        let k = qs.len();
+        let r = catch_unwind(AssertUnwindSafe(|| -> Option<String> {
+            let data: ArrayD<E> = make_data::<E>(&self.rows, &self.trail);
+            macro_rules! go {
+                ($builder:expr) => {{
+                    let interp = match $builder.build() { Ok(i) => i, Err(_) => return Some("second build of the same scenario failed".into()) };
+                    let mut res: Vec<(&'static str, Result<Vec<Val>, ()>)> = vec![];
+                    let q1 = Array1::from(qs.clone());
+                    res.push(("static rank-1 query", interp.interp_array(&q1).map(|a| a.iter().map(|v| v.to_val()).collect()).map_err(|_| ())));
+                    let qd = ArrayD::from_shape_vec(IxDyn(&[k]), qs.clone()).unwrap();
+                    res.push(("dynamic rank-1 query", interp.interp_array(&qd).map(|a| a.iter().map(|v| v.to_val()).collect()).map_err(|_| ())));
+                    let q2 = ArrayD::from_shape_vec(IxDyn(&[k, 1]), qs.clone()).unwrap();
+                    res.push(("rank-2 query", interp.interp_array(&q2).map(|a| a.iter().map(|v| v.to_val()).collect()).map_err(|_| ())));
+                    for (name, r) in res {
+                        match (r, any_oob) {
+                            (Ok(v), false) => if v != flat { return Some(format!("interp_array ({}) returns other values than interp for the same queries", name)); },
+                            (Ok(_), true) => return Some(format!("interp_array ({}) returned Ok although interp refuses one of the queries (OutOfBounds)", name)),
+                            (Err(()), false) => return Some(format!("interp_array ({}) returned an error although interp answers every query", name)),
+                            (Err(()), true) => {}
+                        }
+                    }
+                    None
+                }};
+            }
+            match (&self.strat, &self.ax) {
+                (Strat1::Linear, None) => go!(Interp1DBuilder::new(data).strategy(configure_linear(self.ext))),
+                (Strat1::Linear, Some(ax)) => {
+                    let x = Array1::from(ax.iter().map(|&v| E::of_f64(v)).collect::<Vec<_>>());
+                    go!(Interp1DBuilder::new(data).x(x).strategy(configure_linear(self.ext)))
+                }
+                (Strat1::Spline(bc), axo) => {
+                    let boundary: BoundaryCondition<E, IxDyn> = match bc {
+                        Bc::NotAKnot => BoundaryCondition::NotAKnot,
+                        Bc::Natural => BoundaryCondition::Natural,
+                        Bc::Clamped => BoundaryCondition::Clamped,
+                        Bc::Periodic => BoundaryCondition::Periodic,
+                        Bc::Individual(rbs, shape) => {
+                            let v: Vec<RowBoundary<E>> = rbs.iter().map(rowbc::<E>).collect();
+                            BoundaryCondition::Individual(ArrayD::from_shape_vec(IxDyn(shape), v).unwrap())
+                        }
+                    };
+                    let strat = configure_spline(self.ext, boundary);
+                    match axo {
+                        None => go!(Interp1DBuilder::new(data).strategy(strat)),
+                        Some(ax) => {
+                            let x = Array1::from(ax.iter().map(|&v| E::of_f64(v)).collect::<Vec<_>>());
+                            go!(Interp1DBuilder::new(data).x(x).strategy(strat))
+                        }
+                    }
+                }
+            }
+        }));
+        match r {
+            Ok(x) => x,
+            Err(p) => Some(format!("interp_array panicked on queries that interp handles: {}", panic_msg(p))),
+        }
     }
 
     // ---------------- Coq / JSON rendering ----------------
@@ -410,7 +496,62 @@ impl Scen2 {
         }
     }
     pub fn run<E: Elem>(&self) -> (BuildOut, Vec<Out>) {
-        self.run_dim::<E, IxDyn>()
+        let mut r = self.run_dim::<E, IxDyn>();
+        if r.0 == BuildOut::Built && !r.1.is_empty() {
+            if let Some(msg) = self.batch_mismatch::<E>(&r.1) {
+                r.1[0] = Out::Panic(msg);
+            }
+        }
+        r
+    }
+    /// 2-D analogue of Scen1::batch_mismatch
+    fn batch_mismatch<E: Elem>(&self, outs: &[Out]) -> Option<String> {
+        if outs.iter().any(|o| matches!(o, Out::Panic(_))) {
+            return None;
+        }
+        let any_oob = outs.iter().any(|o| matches!(o, Out::Oob));
+        let mut flat: Vec<Val> = vec![];
+        for o in outs { if let Out::Ok(v) = o { flat.extend(v.iter().cloned()); } }
+        let qx: Vec<E> = self.queries.iter().map(|&(x, _)| E::of_f64(x)).collect();
+        let qy: Vec<E> = self.queries.iter().map(|&(_, y)| E::of_f64(y)).collect();
+        let k = qx.len();
+        let r = catch_unwind(AssertUnwindSafe(|| -> Option<String> {
+            let data: ArrayD<E> = self.make_data::<E>();
+            macro_rules! go {
+                ($builder:expr) => {{
+                    let interp = match $builder.build() { Ok(i) => i, Err(_) => return Some("second build of the same scenario failed".into()) };
+                    let mut res: Vec<(&'static str, Result<Vec<Val>, ()>)> = vec![];
+                    res.push(("static rank-1 queries", interp.interp_array(&Array1::from(qx.clone()), &Array1::from(qy.clone())).map(|a| a.iter().map(|v| v.to_val()).collect()).map_err(|_| ())));
+                    let xd = ArrayD::from_shape_vec(IxDyn(&[k]), qx.clone()).unwrap();
+                    let yd = ArrayD::from_shape_vec(IxDyn(&[k]), qy.clone()).unwrap();
+                    res.push(("dynamic rank-1 queries", interp.interp_array(&xd, &yd).map(|a| a.iter().map(|v| v.to_val()).collect()).map_err(|_| ())));
+                    let x2 = ArrayD::from_shape_vec(IxDyn(&[1, k]), qx.clone()).unwrap();
+                    let y2 = ArrayD::from_shape_vec(IxDyn(&[1, k]), qy.clone()).unwrap();
+                    res.push(("rank-2 queries", interp.interp_array(&x2, &y2).map(|a| a.iter().map(|v| v.to_val()).collect()).map_err(|_| ())));
+                    for (name, r) in res {
+                        match (r, any_oob) {
+                            (Ok(v), false) => if v != flat { return Some(format!("2-D interp_array ({}) returns other values than interp for the same queries", name)); },
+                            (Ok(_), true) => return Some(format!("2-D interp_array ({}) returned Ok although interp refuses one of the queries (OutOfBounds)", name)),
+                            (Err(()), false) => return Some(format!("2-D interp_array ({}) returned an error although interp answers every query", name)),
+                            (Err(()), true) => {}
+                        }
+                    }
+                    None
+                }};
+            }
+            let st = configure_bilinear(self.ext);
+            let ar = |v: &Vec<f64>| Array1::from(v.iter().map(|&x| E::of_f64(x)).collect::<Vec<_>>());
+            match (&self.xax, &self.yax) {
+                (None, None) => go!(Interp2DBuilder::new(data).strategy(st)),
+                (Some(x), None) => go!(Interp2DBuilder::new(data).x(ar(x)).strategy(st)),
+                (None, Some(y)) => go!(Interp2DBuilder::new(data).y(ar(y)).strategy(st)),
+                (Some(x), Some(y)) => go!(Interp2DBuilder::new(data).x(ar(x)).y(ar(y)).strategy(st)),
+            }
+        }));
+        match r {
+            Ok(x) => x,
+            Err(p) => Some(format!("2-D interp_array panicked on queries that interp handles: {}", panic_msg(p))),
+        }
     }
     pub fn to_coq(&self, num: &dyn Fn(f64) -> String) -> String {
         let list = |v: &[f64]| format!("[{}]", v.iter().map(|&x| num(x)).collect::<Vec<_>>().join("; "));
